@@ -245,9 +245,21 @@ func (m *Dev) abs(ev Event, got []Msg, signals int) *Violation {
 		st.last = s
 		return nil
 	}
+	if m.Learning && (a.Type == "cc" || a.Type == "pitch_bend") {
+		if f := Flipped(a, s, canNeg); !(f.Cmp(new(big.Rat).Neg(rHalf)) < 0 || f.Cmp(rHalf) > 0) {
+			// swallowed by the learning gate: nothing is transmitted, so nothing counts as "sent before" either - the
+			// same position arriving again after learning is not a repetition
+			m.probe("learning_gate_dropped")
+			if len(got) != 0 {
+				return viol("learning_gate", fmt.Sprintf("cc_learning held, %s is within half travel but emitted %s", ev, fmtMsgs(got)), "C07")
+			}
+			return nil
+		}
+	}
 	sameInput := st.seen && st.lastRaw == ev.Value && st.lastMap == m.Map
+	first := !st.seen // nothing of this axis has been transmitted yet: its first position is not a repetition of anything
 	st.seen, st.lastRaw, st.lastMap = true, ev.Value, m.Map
-	if s.Cmp(st.last) == 0 {
+	if !first && s.Cmp(st.last) == 0 {
 		m.probe("axis_duplicate")
 		if len(got) == 0 {
 			return nil
@@ -260,7 +272,7 @@ func (m *Dev) abs(ev Event, got []Msg, signals int) *Violation {
 		// computation may tell them apart; a re-sent value is judged like any other
 		m.probe("axis_exact_coincidence")
 	}
-	if len(got) == 0 && abs(new(big.Rat).Sub(s, st.last)).Cmp(big.NewRat(1, 1000000000)) < 0 {
+	if !first && len(got) == 0 && abs(new(big.Rat).Sub(s, st.last)).Cmp(big.NewRat(1, 1000000000)) < 0 {
 		// mathematically different from the previous shaped value by less than 1e-9 (two mappings with
 		// different deadzones can map neighbouring positions onto the same float): not re-sending the same
 		// transmitted value is fine
@@ -410,6 +422,10 @@ func (m *Dev) keyAxis(ev Event, a *AxisDesc, st *axisState, f *big.Rat, canNeg b
 		newDir = -1
 	case abs(v).Cmp(r49) < 0:
 		newDir = 0
+	case st.dir != 0 && v.Sign() != 0 && (v.Sign() > 0) != (st.dir > 0):
+		// between 49 % and half travel, but on the other side: the direction that is sounding is deflected by
+		// less than 49 % (not at all), so it is off; the new side has not reached half travel yet
+		newDir = 0
 	}
 	var wantOff *Pair
 	var wantOn *Pair
@@ -480,6 +496,22 @@ func (m *Dev) keyAxis(ev Event, a *AxisDesc, st *axisState, f *big.Rat, canNeg b
 			st.pair = wantOn
 		}
 		return nil
+	}
+	if wantOn != nil && wantOff != nil && sawOn && sawOff {
+		// a jump from one direction to the other: the two never sound together, so the Off comes first - which also
+		// matters when transposition made the two directions the same pitch (an Off after the On silences both)
+		on, off := -1, -1
+		for i, g := range got {
+			if g.Kind == 'N' && on < 0 {
+				on = i
+			}
+			if g.Kind == 'F' && off < 0 {
+				off = i
+			}
+		}
+		if on < off {
+			return viol("keyaxis_both_directions_sound", fmt.Sprintf("%s jumps from one direction to the other: Note On %v was sent before Note Off %v (emitted %s)", ev, *wantOn, *wantOff, fmtMsgs(got)), "C08")
+		}
 	}
 	if wantOn != nil && !sawOn {
 		return viol("keyaxis_missing_on", fmt.Sprintf("%s reached half travel: expected Note On %v, emitted %s", ev, *wantOn, fmtMsgs(got)), "C08")
